@@ -351,8 +351,16 @@ class Check(PropertyCheck):
                   "incl. the OSError branch of write_eof (a per-run environment flag per socket), Flow.kill()/killable as seen by "
                   "the layers. Liveness theorems (exactly_one_end_or_error, half_close_emitted_once_quiescent, "
                   "half_close_propagated...) are stated for live sockets: with a dead socket the ConnectionClosed that the "
-                  "cancelled handler still owes is an environment obligation the model does not assume. Arrival order is proved for flows with hooks (ignore=False); "
-                  "for ignore=True it is checked by the oracle and the tie only. The tie is differential, not a proof.")
+                  "cancelled handler still owes is an environment obligation the model does not assume. Arrival order is proved with a flow (messages_handled_in_arrival_order) "
+                  "and without (ignore_mode_relays_in_arrival_order). Oracle excuses, each with a doctored counter-example in "
+                  "known_selftest(): (a) the immediate-half-close clause looks only at the FIRST ConnectionClosed of a connection "
+                  "(server.py delivers one; a tunnel swallows repeats); (b) clause 1/1c need quiescence resp. a completed hook; "
+                  "(c) tunnel family: the CONNECT handshake bytes and HttpConnectUpstreamHook are not relay traffic, and the "
+                  "virtual connection's state bits are not compared (the tunnel layer owns them); (d) server-side events before "
+                  "the tunnel is up are not delivered. Expected values of the order/content clauses (1b, 1c) come from the "
+                  "schedule (arrival order, edits), clause 1 (sends == flow.messages) is kept as a consistency check. Model inputs "
+                  "are the events the world really delivered (tunnel family: the events the tunnel layer handed to TCPLayer); no "
+                  "layer state is copied into the model; live/error flags are predicted. The tie is differential, not a proof.")
     technique = "Lean 4 proof (invariants over all schedules of an executable state-machine model) + step-wise model-vs-code correspondence via world.py"
     rule = ("schedules over {data c/s, inject, close c/s (half/full), hook completion (keep/edit/kill), connect ok/err} for "
             "proto x flow/ignore x server pre-connected; exhaustive short schedules first, then random ones of length <= 16 "
@@ -370,8 +378,51 @@ class Check(PropertyCheck):
     ALPHA = [("data", "c", "61"), ("data", "s", "62"), ("close", "c", 0), ("close", "s", 0), ("hook", None),
              ("hook", "7a7a"), ("connect", 0), ("connect", 1), ("inject", 1, "69"), ("close", "c", 1), ("hook", "kill")]
 
+    def known_selftest(self):
+        """doctored observations just outside what the oracle excuses (independent of the tree under test)"""
+        def st(inp, out, pre, c, s_, ph="relay", paused=0, q=0, n=0):
+            return {"in": inp, "out": out, "pre": pre, "c": c, "s": s_, "ph": ph, "paused": paused, "q": q, "n": n, "live": 1, "err": 0}
+        case = {"proto": "tcp", "flow": 1, "connected": 1, "sched": []}
+        head = [st("start", ["H:start"], "rwrw", "rw", "rw", "start", 1), st("hook none", [], "rwrw", "rw", "rw")]
+
+        def obs(steps, msgs):
+            return {"steps": head + steps, "errors": [], "msgs": msgs, "live": True, "has_error": False, "killed": 0, "quiescent": True}
+        bad = {
+            "buffered data replayed in reverse": obs([
+                st("data c 30", ["H:msg:c:30"], "rwrw", "rw", "rw", paused=1, n=1),
+                st("data s 31", [], "rwrw", "rw", "rw", paused=1, q=1, n=1), st("data s 32", [], "rwrw", "rw", "rw", paused=1, q=2, n=1),
+                st("hook none", ["S:s:30", "H:msg:s:32"], "rwrw", "rw", "rw", paused=1, q=1, n=2),
+                st("hook none", ["S:c:32", "H:msg:s:31"], "rwrw", "rw", "rw", paused=1, n=3),
+                st("hook none", ["S:c:31"], "rwrw", "rw", "rw", n=3)], [[1, "30"], [0, "32"], [0, "31"]]),
+            "addon edit not sent": obs([st("data c 30", ["H:msg:c:30"], "rwrw", "rw", "rw", paused=1, n=1),
+                                        st("hook 7a", ["S:s:30"], "rwrw", "rw", "rw", n=1)], [[1, "30"]]),
+            "first half-close not propagated": obs([st("closed c 0", [], "-wrw", "-w", "rw")], []),
+            "full close while the other side is readable": obs([st("closed c 0", ["C:s:f", "C:c:f", "H:end"], "-wrw", "--", "--", "done", 1)], []),
+            "two end hooks": obs([st("closed c 0", ["C:s:h"], "-wrw", "-w", "r-"),
+                                  st("closed s 1", ["C:c:f", "H:end"], "-w--", "--", "--", "done", 1),
+                                  st("hook none", ["H:end"], "----", "--", "--", "done", 1)], []),
+            "data relayed after the end": obs([st("closed c 0", ["C:s:h"], "-wrw", "-w", "r-"),
+                                               st("closed s 1", ["C:c:f", "H:end"], "-w--", "--", "--", "done", 1),
+                                               st("data s 31", ["S:c:31"], "----", "--", "--", "done", 1)], []),
+            "half-close overtakes data": obs([
+                st("data c 30", ["H:msg:c:30"], "rwrw", "rw", "rw", paused=1, n=1),
+                st("data c 31", [], "rwrw", "rw", "rw", paused=1, q=1, n=1), st("closed c 0", [], "-wrw", "-w", "rw", paused=1, q=2, n=1),
+                st("hook none", ["S:s:30", "C:s:h", "H:msg:c:31"], "-wrw", "-w", "r-", paused=1, n=2),
+                st("hook none", ["S:s:31"], "-wr-", "-w", "r-", n=2)], [[1, "30"], [1, "31"]]),
+        }
+        good = {
+            "second ConnectionClosed of the same side without a new half-close": obs([
+                st("closed c 0", ["C:s:h"], "-wrw", "-w", "r-"), st("closed c 0", [], "-wr-", "-w", "r-")], []),
+        }
+        for label, o in bad.items():
+            if not self.oracle(case, o): raise AssertionError(f"known_selftest: oracle accepts doctored observation '{label}'")
+        for label, o in good.items():
+            f = self.oracle(case, o)
+            if f: raise AssertionError(f"known_selftest: oracle rejects legitimate observation '{label}': {f[:2]}")
+
     def setup(self, tier):
         self.parallel = tier == "thorough"
+        self.known_selftest()
         # build the (expensive) Options object once, before the worker pool forks
         global _OPTS
         if _OPTS is None: _OPTS = make_context("tcp").options
@@ -502,6 +553,24 @@ class Check(PropertyCheck):
                 processed = [o.split(":")[2] for _, o in outs if o.startswith(f"S:{tgt}:")]
             if processed != arrived[:len(processed)]:
                 fails.append(f"data from the {SIDE[src]} relayed out of order: arrived {arrived} processed {processed}")
+        # (1c) "including addon modifications": what is sent for a message is what the schedule's addon left in it - the
+        #      edit given with the completion of that message's hook, else the bytes that arrived (input-derived; clause 1
+        #      only compares the sends with flow.messages, both written by the layer)
+        if flow:
+            pending = None
+            for st in obs["steps"]:
+                f = st["in"].split()
+                outl = list(st["out"])
+                if pending is not None and (f[0] == "hook" or f[0] == "hookkill"):
+                    src, orig = pending
+                    want = f[1] if (f[0] == "hook" and f[1] != "none") else orig
+                    tgt = "s" if src == "c" else "c"
+                    if not outl or outl[0] != f"S:{tgt}:{want}":
+                        fails.append(f"{st['in']}: message {orig} from the {SIDE[src]} should be sent on as {want}, got {outl[:1]}")
+                    pending = None
+                for o in outl:
+                    if o.startswith("H:msg:"):
+                        _, _, src, orig = o.split(":"); pending = (src, orig)
         #      and a peer's half-close must not overtake the data that peer sent before it (TCP)
         if proto == "tcp":
             for src, tgt in (("c", "s"), ("s", "c")):
